@@ -234,6 +234,20 @@ def run_config(ctx, cfg):
             ctx.eq("psi/imag[row=%d]" % r, psi._arr[1, r], want1[r])
         ctx.eq("psi/vector-form-real", psiv._arr[0], want0[D - 1])
         ctx.eq("psi/vector-form-imag", psiv._arr[1], want1[D - 1])
+        # the basis states may be handed over in any tensor type that holds 0 / 1 (integer, bool, single precision, a
+        # numpy-backed tensor): the values are those of the double-precision call
+        for tname, conv in (("int64", lambda t: t.long()), ("int32", lambda t: t.int()), ("uint8", lambda t: t.to(torch.uint8)), ("bool", lambda t: t.bool()),
+                            ("float32", lambda t: t.float()), ("non-contiguous double", lambda t: t.t().contiguous().t())):
+            for form, vv in (("batch", conv(space)), ("vector", conv(space[D - 1]))):
+                try:
+                    pt = state.psi(vv)
+                except alg.Unmodelled as e:
+                    ctx.undecided("psi/basis states given as %s (%s)" % (tname, form), str(e)[:160])
+                    continue
+                if form == "batch":
+                    ctx.eq_arrays("psi/basis states given as %s == the double-precision call" % tname, st._obj(pt), psi._arr)
+                else:
+                    ctx.eq_arrays("psi/one basis state given as %s == the double-precision call" % tname, st._obj(pt), psiv._arr)
         rev = torch.flip(space, [0])
         isn = state.importance_sampling_numerator(rev, space)
         isd = state.importance_sampling_denominator(space)
